@@ -398,6 +398,26 @@ Definition site_table : list (site * why) := [
 
 Definition justified_sites : list site := map fst site_table.
 
+(* The justifications above were written against the text of the functions that contain a Put and of the
+   functions (same file) that assign to the field whose value is put back.  Their bodies are pinned by
+   fingerprint (FNV-64a of the go/printer form without comments, computed by gensites on every run): an edit
+   to one of them does not make C12 false, but the justification has to be read again and the fingerprint
+   updated here. *)
+Definition justified_put_contexts : list (string * string * string) := [
+  ("connection_unix.go", "conn.Peek", "7f2ddd2afa8bfe5e");
+  ("connection_unix.go", "conn.Discard", "7f9708b463751be9");
+  ("pkg/buffer/elastic/elastic_ring_buffer.go", "RingBuffer.instance", "8c0a23d893ac3ee4");
+  ("pkg/buffer/elastic/elastic_ring_buffer.go", "RingBuffer.Done", "4799555b17b44547");
+  ("pkg/buffer/elastic/elastic_ring_buffer.go", "RingBuffer.done", "5d7e08e89c054e23");
+  ("pkg/buffer/linkedlist/linked_list_buffer.go", "Buffer.Read", "d6cec914f6ea0687");
+  ("pkg/buffer/linkedlist/linked_list_buffer.go", "Buffer.FreeNode", "12499be787904819");
+  ("pkg/buffer/linkedlist/linked_list_buffer.go", "Buffer.Discard", "1550844246a2e12b");
+  ("pkg/buffer/linkedlist/linked_list_buffer.go", "Buffer.ReadFrom", "091400b6254712ad");
+  ("pkg/buffer/linkedlist/linked_list_buffer.go", "Buffer.WriteTo", "5b6f0f5aa1ca293c");
+  ("pkg/buffer/linkedlist/linked_list_buffer.go", "Buffer.Reset", "d20a1bbe0f49c457");
+  ("pkg/buffer/ring/ring_buffer.go", "Buffer.grow", "254a73c1103aafdb")
+].
+
 Definition site_eqb (a b : site) : bool :=
   let '(a1, a2, a3, a4) := a in
   let '(b1, b2, b3, b4) := b in
